@@ -727,6 +727,41 @@ func (r *runner) sealAnother() string {
 	return ""
 }
 
+// fetchSpread fetches documents spread over the whole fraction (the newest ones, which sit in the first document
+// blocks of the sorted file, the oldest ones and a stride in between) and compares them with the bytes ingested.
+func (r *runner) fetchSpread(form string, f frac.Fraction) {
+	n := r.cp.s.N
+	var idx []int
+	for i := n; i >= 1 && len(idx) < 60; i -= 1 + (n-i)/6 {
+		idx = append(idx, i)
+	}
+	for i := 1; i <= n && len(idx) < 90; i += 1 + n/40 {
+		idx = append(idx, i)
+	}
+	ids := make([]seq.ID, len(idx))
+	for k, i := range idx {
+		ids[k] = r.cp.id(i)
+	}
+	what := safely(func() string {
+		dp, release := f.DataProvider(context.Background())
+		defer release()
+		docs, err := dp.Fetch(ids)
+		if err != nil {
+			return "fetch error: " + err.Error()
+		}
+		for k, i := range idx {
+			if !bytes.Equal(docs[k], r.cp.body(i)) {
+				return fmt.Sprintf("fetch: id (%d,%d) answered %q expected document %d", ids[k].MID, ids[k].RID, trunc(docs[k]), i)
+			}
+		}
+		return ""
+	})
+	evals.Add(1)
+	if what != "" {
+		r.report(form, "dataprovider", -2, what, nil, nil)
+	}
+}
+
 func (r *runner) dropOthers(keep frac.Fraction) {
 	for _, f := range r.e.FM().GetAllFracs() {
 		if f != keep && f.Info().DocsTotal > 0 {
@@ -813,6 +848,7 @@ func runCase(c *Case) {
 				return
 			}
 			r.probe(form, true)
+			r.fetchSpread(form, first)
 			r.dropOthers(first)
 			mark(form, false)
 			continue
